@@ -15,6 +15,7 @@ import (
 type byzState struct {
 	serve    map[hotstuff.Hash]*hotstuff.Block // fabricated blocks it serves to block fetches
 	refuse   map[hotstuff.Hash]bool           // blocks it currently refuses to serve
+	rogue    *vk.Rogue                        // bls12 rogue key registered at the other replicas (nil otherwise)
 	blocks   []*hotstuff.Block
 	qcs      []hotstuff.QuorumCert
 	tcs      []hotstuff.TimeoutCert
@@ -96,7 +97,7 @@ func (b *byzState) highQC() hotstuff.QuorumCert {
 var byzActions = []string{
 	"honest-propose", "equivocate", "parent-not-certified", "fork-old-qc", "inflate-view", "relabel-qc", "repeated-signer-qc",
 	"newview-stale", "newview-forged-tc", "timeout-future", "timeout-foreign-sig", "timeout-garbage", "timeout-honest",
-	"syncinfo-mixed", "stale-view-propose", "double-vote", "multi-signer-vote", "vote-unknown-block", "vote-garbage", "aggqc-relabelled", "silence",
+	"syncinfo-mixed", "stale-view-propose", "rogue-forge", "double-vote", "multi-signer-vote", "vote-unknown-block", "vote-garbage", "aggqc-relabelled", "silence",
 }
 
 func (c *Cluster) byzBatch(a *Actor) *clientpb.Batch {
@@ -319,6 +320,32 @@ func (c *Cluster) ByzAct(a *Actor, which string) {
 			pv++
 		}
 		c.sendAll(a, mkProp(hotstuff.NewBlock(qc.BlockHash(), qc, c.byzBatch(a), pv, a.ID)))
+	case "rogue-forge":
+		// x*H(m) labelled with q-1 honest victims and the actor: only a verifier that accepted the rogue key takes it
+		if st.rogue == nil {
+			return
+		}
+		switch c.Rng.Intn(3) {
+		case 0: // forged TC for a later view, in a new-view and in a timeout message
+			v := view + hotstuff.View(c.Rng.Range(0, 40))
+			si := hotstuff.NewSyncInfoWith(hotstuff.NewTimeoutCert(st.rogue.Forge(v.ToBytes()), v))
+			si.SetQC(hq)
+			for _, o := range c.others(a) {
+				c.enqueue(a, o, hotstuff.NewViewMsg{ID: a.ID, SyncInfo: si})
+			}
+		case 1: // forged QC for an own, never-voted block in a new-view message
+			own := hotstuff.NewBlock(hq.BlockHash(), hq, c.byzBatch(a), view, a.ID)
+			c.registerByzBlock(a, own)
+			fq := hotstuff.NewQuorumCert(st.rogue.Forge(own.ToBytes()), own.View(), own.Hash())
+			for _, o := range c.others(a) {
+				c.enqueue(a, o, hotstuff.NewViewMsg{ID: a.ID, SyncInfo: hotstuff.NewSyncInfoWith(fq)})
+			}
+		default: // a proposal on top of a forged QC
+			own := hotstuff.NewBlock(hq.BlockHash(), hq, c.byzBatch(a), view, a.ID)
+			c.registerByzBlock(a, own)
+			fq := hotstuff.NewQuorumCert(st.rogue.Forge(own.ToBytes()), own.View(), own.Hash())
+			c.sendAll(a, mkProp(hotstuff.NewBlock(own.Hash(), fq, c.byzBatch(a), view+1, a.ID)))
+		}
 	case "inflate-view":
 		v := view + hotstuff.View([]int{1, 2, 5, 9, 1000}[c.Rng.Intn(5)])
 		c.sendAll(a, mkProp(hotstuff.NewBlock(hq.BlockHash(), hq, c.byzBatch(a), v, a.ID)))
